@@ -378,7 +378,7 @@ def w_shared_defaults():
     return dict(reproduced=bool(shared), observed='TlsExtensionSessionTicket().session_ticket is shared' if shared else 'not shared')
 
 
-def units(tier, seed):
+def _units_body(tier, seed):
     classes = [c for c in common.select_classes(e1.binary_classes(), tier, 'C01')
                if c.__name__ not in regions.whole_class_regions()]
     out = [k9_unit(c) for c in classes]
@@ -409,4 +409,10 @@ def units(tier, seed):
 
 
 FINDING_REPLAYS = dict(regions.finding_replays('C13'))
+
+def units(tier, seed):
+    from checks import canary
+    return list(_units_body(tier, seed)) + [canary.e1_accepts()]
+
+
 FINDING_REPLAYS['KF-C13-shared-defaults'] = w_shared_defaults
